@@ -166,5 +166,6 @@ func runC02(r *an.Run) {
 	codecC02(r)
 	windowDiscipline(r)
 	modifiedMarkerDiscipline(r)
+	persistRestoreKindAgreement(r)
 	statusWriters(r)
 }
